@@ -56,7 +56,7 @@ FALSY = {"none": None, "zero": 0, "str": "", "empty": ()}
 def make_target(cfg, st):
     """ONE decorator object applied to cfg["nf"] functions.  returns (get_callable(g, i), instances dict, cls or None)"""
     deco, form, block = cfg["deco"], cfg["form"], cfg["body"] == "block"
-    nf, ret = cfg.get("nf", 1), cfg.get("ret", "tuple")
+    nf, ret, sig = cfg.get("nf", 1), cfg.get("ret", "tuple"), cfg.get("sig", "std")
 
     def finish(v):
         """what the body does with its fresh value v = (g, i, a, b, c, n)"""
@@ -80,7 +80,7 @@ def make_target(cfg, st):
         wrap = alru_cache(maxsize=cfg["maxsize"], key_fn=key_fn)
         fns = {}
         for g in range(1, nf + 1):
-            fns[g] = wrap(asynq_deco()(_plain_fn(st, g, block, finish)))
+            fns[g] = wrap(asynq_deco()(_plain_fn(st, g, block, finish, sig)))
         return (lambda g, i: fns[g]), {}, None
 
     if deco == "lru":
@@ -97,8 +97,8 @@ def make_target(cfg, st):
         def __init__(self, i):
             self.i = i
 
-        m1 = wrap(asynq_deco()(_method(st, 1, block, finish)))
-        m2 = wrap(asynq_deco()(_method(st, 2, block, finish))) if nf == 2 else None
+        m1 = wrap(asynq_deco()(_method(st, 1, block, finish, sig)))
+        m2 = wrap(asynq_deco()(_method(st, 2, block, finish, sig))) if nf == 2 else None
     objs = {1: K(1), 2: K(2)}
     return (lambda g, i: getattr(objs[i], "m%d" % g)), objs, K
 
@@ -111,40 +111,48 @@ def _lazy_body(st, g, block, ret):
 
     if block:
         def body():
-            v = st.bump((g, 0, 0, 0, 0))
+            v = st.bump((g, 0, 0, 0, 0, 0, 0))
             armed, st.armed = st.armed, False
             yield DebugBatchItem()
             return done(v, armed)
     else:
         def body():
-            v = st.bump((g, 0, 0, 0, 0))
+            v = st.bump((g, 0, 0, 0, 0, 0, 0))
             armed, st.armed = st.armed, False
             return done(v, armed)
     return body
 
 
-def _plain_fn(st, g, block, finish):
-    if block:
-        def f(a, b=0, *, c=0):
-            v = st.bump((g, 0, a, b, c))
-            yield DebugBatchItem()
-            return finish(v)
-    else:
-        def f(a, b=0, *, c=0):
-            return finish(st.bump((g, 0, a, b, c)))
-    return f
+SIGS = {      # parameter list after a and b; how the body reads c, the extra positional p and the extra keyword x
+    "std": ("*, c=0", "c", "0", "0"),
+    "kw": ("*, c=0, **extra", "c", "0", "extra.get('x', 0)"),
+    "var": ("*rest, **extra", "0", "(rest[0] if rest else 0)", "extra.get('x', 0)"),
+    "varkwo": ("*rest, c=0, **extra", "c", "(rest[0] if rest else 0)", "extra.get('x', 0)"),
+}
+TEMPLATE = """
+def target({selfp}a, b=0, {tail}):
+    v = st.bump((g, {inst}, a, b, {cval}, {pval}, {xval}))
+    {pause}
+    return finish(v)
+"""
 
 
-def _method(st, g, block, finish):
-    if block:
-        def m(self, a, b=0, *, c=0):
-            v = st.bump((g, self.i, a, b, c))
-            yield DebugBatchItem()
-            return finish(v)
-    else:
-        def m(self, a, b=0, *, c=0):
-            return finish(st.bump((g, self.i, a, b, c)))
-    return m
+def _build(st, g, block, finish, sig, method):
+    """the cached function, written out for the signature cfg['sig'] (plain or generator body)"""
+    tail, cval, pval, xval = SIGS[sig]
+    src = TEMPLATE.format(selfp="self, " if method else "", tail=tail, inst="self.i" if method else "0",
+                          cval=cval, pval=pval, xval=xval, pause="yield DebugBatchItem()" if block else "pass")
+    env = {"st": st, "g": g, "finish": finish, "DebugBatchItem": DebugBatchItem}
+    exec(src, env)
+    return env["target"]
+
+
+def _plain_fn(st, g, block, finish, sig="std"):
+    return _build(st, g, block, finish, sig, False)
+
+
+def _method(st, g, block, finish, sig="std"):
+    return _build(st, g, block, finish, sig, True)
 
 
 def spell(s):
@@ -159,6 +167,10 @@ def spell(s):
         kwargs["b"] = s["b"]
     if s["sc"] == "k":
         kwargs["c"] = s["c"]
+    if s.get("p", 0):
+        args.append(s["p"])          # an extra positional argument (collected by *rest)
+    if s.get("x", 0):
+        kwargs["x"] = s["x"]         # an extra keyword argument (collected by **extra)
     return args, kwargs
 
 
@@ -167,7 +179,7 @@ def enc(v):
     if v is None:
         return ["val", "none"]
     if isinstance(v, tuple):
-        return ["val"] + list(v) if len(v) == 6 else (["val", "empty"] if v == () else ["odd", repr(v)])
+        return ["val"] + list(v) if len(v) == 8 else (["val", "empty"] if v == () else ["odd", repr(v)])
     if type(v) is int and v == 0:
         return ["val", "zero"]
     if type(v) is str and v == "":
@@ -269,13 +281,27 @@ def run_history(cfg, ops):
     return got
 
 
+def matches(want, have):
+    """one prescribed result against one real result"""
+    want, have = list(want), list(have)
+    if want == ["any"]:
+        return True
+    if want[0] == "fresh":          # <<"fresh", kind, args.., lo, hi>>: the fresh value of a body run of THIS operation
+        kind, args, lo, hi = want[1], want[2:-2], want[-2], want[-1]
+        return len(have) == len(args) + 2 and have[0] == kind and have[1:-1] == args and isinstance(have[-1], int) and lo <= have[-1] <= hi
+    return want == have
+
+
 def differs(o, g):
     if o["runs"] >= 0 and o["runs"] != g["runs"]:
         return True
+    if len(o["res"]) != len(g["res"]):
+        return True
     for want, have in zip(o["res"], g["res"]):
-        if list(want) != ["any"] and list(want) != list(have):
+        if not matches(want, have):
             return True
-    return len(o["res"]) != len(g["res"])
+    fresh = [tuple(have) for want, have in zip(o["res"], g["res"]) if list(want)[:1] == ["fresh"]]
+    return len(set(fresh)) != len(fresh)      # every call of the operation got the result of its OWN body run
 
 
 def main():
